@@ -56,9 +56,10 @@ def kernel_obligations(P, nbits, order, L):
     # (1) unpack(b)[k] == field_k(b)  and < 2^nbits
     it = Interp(capu, "bv")
     a = sym_array(it, "b", aty, (L,))
-    u = NArr(u1, (L * f,), name="unpacked")
-    for k in range(L * f):
-        u.store[k] = 0
+    # output buffers hold arbitrary stale bytes before the call (a caller-supplied buffer): an element the kernel
+    # does not write keeps its stale value and breaks the round trip
+    u = sym_array(it, "staleu", aty, (L * f,))
+    stale_u = [x.t for x in u.store]
     it.run([a, u])
     bs = [a.store[i].t for i in range(L)]
     bad = [u.store[i * f + k].t != field(bs[i], nbits, order, k) if isinstance(u.store[i * f + k], Sym) else z3.BoolVal(True)
@@ -67,28 +68,27 @@ def kernel_obligations(P, nbits, order, L):
         m = solve("unpack=bitfield-definition", [], z3.Or(bad))
         if m is not None:
             vals = [m.eval(b, model_completion=True).as_long() for b in bs]
-            report(P, nbits, order, "unpack", vals, f"unpack{nbits}_8_{order} differs from the bit-field definition")
+            report(P, nbits, order, "unpack", vals, f"unpack{nbits}_8_{order} differs from the bit-field definition", stale=[m.eval(x, model_completion=True).as_long() for x in stale_u])
         # (2) pack(unpack(b)) == b
         it2 = Interp(capp, "bv")
-        p = NArr(u1, (L,), name="packed")
-        p.store = [0] * L
+        p = sym_array(it2, "stalep", aty, (L,))
+        stale_p = [x.t for x in p.store]
         src = NArr(u1, (L * f,), name="array")
         src.store = list(u.store)
         it2.run([src, p])
         m = solve("pack(unpack(b))=b", [], z3.Or([p.store[i].t != bs[i] if isinstance(p.store[i], Sym) else z3.BoolVal(True) for i in range(L)]))
         if m is not None:
             vals = [m.eval(b, model_completion=True).as_long() for b in bs]
-            report(P, nbits, order, "pack-unpack", vals, "pack(unpack(b)) != b")
+            report(P, nbits, order, "pack-unpack", vals, "pack(unpack(b)) != b", stale=[m.eval(x, model_completion=True).as_long() for x in stale_p])
         # (3) unpack(pack(v)) == v for in-range v; pack(v) bytes by definition
         it3 = Interp(capp, "bv")
         v = sym_array(it3, "v", aty, (L * f,))
         vs = [v.store[i].t for i in range(L * f)]
-        p2 = NArr(u1, (L,), name="packed")
-        p2.store = [0] * L
+        p2 = sym_array(it3, "stalep2", aty, (L,))
+        stale_p2 = [x.t for x in p2.store]
         it3.run([v, p2])
         it4 = Interp(capu, "bv")
-        u2 = NArr(u1, (L * f,), name="unpacked")
-        u2.store = [0] * (L * f)
+        u2 = sym_array(it4, "staleu2", aty, (L * f,))
         src2 = NArr(u1, (L,), name="array")
         src2.store = list(p2.store)
         it4.run([src2, u2])
@@ -96,7 +96,7 @@ def kernel_obligations(P, nbits, order, L):
         m = solve("unpack(pack(v))=v", inr, z3.Or([u2.store[i].t != vs[i] if isinstance(u2.store[i], Sym) else z3.BoolVal(True) for i in range(L * f)]))
         if m is not None:
             vals = [m.eval(x, model_completion=True).as_long() for x in vs]
-            report(P, nbits, order, "unpack-pack", vals, "unpack(pack(v)) != v for in-range samples")
+            report(P, nbits, order, "unpack-pack", vals, "unpack(pack(v)) != v for in-range samples", stale=[m.eval(x, model_completion=True).as_long() for x in stale_p2])
     else:
         # length 0: both kernels must run without touching anything
         it2 = Interp(capp, "bv")
@@ -106,8 +106,8 @@ def kernel_obligations(P, nbits, order, L):
     P.reached += 1
 
 
-def report(P, nbits, order, kind, vals, desc):
-    params = dict(nbits=nbits, order=order, kind=kind, vals=vals)
+def report(P, nbits, order, kind, vals, desc, stale=None):
+    params = dict(nbits=nbits, order=order, kind=kind, vals=vals, stale=stale)
     src = ("import sys, json\nfrom symx.concrete import c03\n"
            f"sys.exit(c03.main(json.loads({json.dumps(json.dumps(params))})))\n")
     P.violation(f"kernel-{nbits}bit-{order}-{kind}", f"{desc}: {params}", src, model=params)
